@@ -52,6 +52,8 @@ def spawnRetStr : SpawnRet → String
   | .ok => "Ok" | .killed => "Err(killed)" | .nolink => "Err(nolink)"
   | .startup p n => s!"Err(startup:{if p then "panic" else "err"}-{n})"
   | .registered => "Err(registered)"
+  | .already => "Err(already)"
+  | .joinPanic => "Panic"
 
 def callResStr : CallRes → String
   | .pending => "Pending" | .success v => s!"Success({v})" | .senderError => "SenderError"
@@ -76,8 +78,12 @@ def renderOut (a : Nat) : Out → Option String
   | .ev (.fxJoin g) => some s!"fx join {g}"
   | .ev (.fxReply k v ok) => some s!"fx reply {k} {v} {if ok then "Ok" else "NoPort"}"
   | .ev (.fxForget k ok) => some s!"fx forget {k} {if ok then "Ok" else "NoPort"}"
+  | .ev (.fxSpawn c loc) => some s!"fx spawnchild {c}{if loc then " local" else ""}"
   | .ev (.callRet k r) => some s!"call {k} {callResStr r}"
   | .ev (.waitRet w ready) => some s!"wait {w} {if ready then "Ready" else "Pending"}"
+  | .ev .instant => some "inst Ok"
+  | .ev (.monFan _ tg e) =>
+    if tg.isEmpty then none else some ("; ".intercalate (tg.map fun m => s!"monemit {m} {supEvStr e}"))
   | .ev _ => none
   | .note s => some s
   | .eff _ => none
@@ -92,8 +98,10 @@ def renderWorld (w : World) (names groups : List String) : String :=
   let sts := w.actors.filterMap fun a =>
     if a.phase = .fresh then none
     else
-      let kids := sortNats (a.kids.getD [])
-      some s!"{a.id}:{statusStr a.status}/{match a.sup with | some p => toString p | none => "-"}/{showNats kids}"
+      let kids := match a.kids with
+        | some l => showNats (sortNats l)
+        | none => "x"      -- closed by a `terminate()`
+      some s!"{a.id}:{statusStr a.status}/{match a.sup with | some p => toString p | none => "-"}/{kids}"
   let run := w.actors.filterMap fun a => if a.phase.isTask && a.woken then some (toString a.id) else none
   let sts := if sts.isEmpty then "-" else " ".intercalate sts
   let run := if run.isEmpty then "-" else ",".intercalate run
@@ -107,10 +115,21 @@ def renderWorld (w : World) (names groups : List String) : String :=
   let tabs := if tabs.isEmpty then "-" else " ".intercalate tabs
   s!"{sts} | run={run} | {tabs}"
 
-def renderLine (w : World) (names groups : List String) (own : List WOut) : String :=
+def renderLine (w : World) (names groups : List String) (own others : List WOut) : String :=
   let notes := own.filterMap fun (a, o) => renderOut a o
   let notes := if notes.isEmpty then "-" else "; ".intercalate notes
-  s!"{notes} | {renderWorld w names groups}"
+  -- actors killed by a `terminate()` during this op (hook note `treekill`), as a sorted extra field
+  let tk := sortNats ((own ++ others).filterMap fun (a, o) => if o == .ev .treeKill then some a else none)
+  let tail := if tk.isEmpty then "" else s!" | tk={showNats tk}"
+  -- monitors dropped because a send to them failed (model note `mondrop m` of the monitored actor)
+  let md := (own ++ others).filterMap fun (a, o) => match o with
+    | .note t => match t.splitOn " " with
+      | ["mondrop", m] => some s!"{a}:{m}"
+      | _ => none
+    | _ => none
+  let md := (md.toArray.qsort (· < ·)).toList
+  let tail := if md.isEmpty then tail else tail ++ s!" | md={",".intercalate md}"
+  s!"{notes} | {renderWorld w names groups}{tail}"
 
 /-! ### parsing ops -/
 
@@ -125,6 +144,7 @@ def parseFx? (t : String) : Option Fx :=
   | ["join", g] => some (.joinGroup g)
   | ["reply", k, v] => do pure (.reply (← k.toNat?) (← v.toNat?))
   | ["forget", k] => k.toNat?.map .forget
+  | ["spawnchild", c] => c.toNat?.map .spawnChild
   | _ => none
 
 def parseTerm? (t : String) : Option Term :=
@@ -157,6 +177,21 @@ def parseOp? (line : String) : Option Op :=
     | ["sup", "-"] => pure (.spawn a none name loc)
     | ["sup", p] => do let p ← p.toNat?; pure (.spawn a (some p) name loc)
     | _ => none
+  | "spawninstant" :: a :: sup :: name :: kind => do
+    let loc := kind == ["kind=local"]
+    let a ← a.toNat?
+    let name ← match name.splitOn "=" with
+      | ["name", "-"] => some none
+      | ["name", n] => some (some n)
+      | _ => none
+    match sup.splitOn "=" with
+    | ["sup", "-"] => pure (.spawnInstant a none name loc)
+    | ["sup", p] => do let p ← p.toNat?; pure (.spawnInstant a (some p) name loc)
+    | _ => none
+  | ["link", a, p] => do pure (.link (← a.toNat?) (← p.toNat?))
+  | ["monitor", m, a] => do pure (.monitor (← m.toNat?) (← a.toNat?))
+  | ["unmonitor", m, a] => do pure (.unmonitor (← m.toNat?) (← a.toNat?))
+  | ["unlink", a, p] => do pure (.unlink (← a.toNat?) (← p.toNat?))
   | ["wait", w, a] => do pure (.wait (← w.toNat?) (← a.toNat?))
   | ["pollwait", w] => w.toNat?.map .pollWait
   | ["call", k, a] => do pure (.call (← k.toNat?) (← a.toNat?))
@@ -204,6 +239,8 @@ def parseSpawnRet? (t : String) : Option SpawnRet :=
   else if t == "Err(killed)" then some .killed
   else if t == "Err(nolink)" then some .nolink
   else if t == "Err(registered)" then some .registered
+  else if t == "Err(already)" then some .already
+  else if t == "Panic" then some .joinPanic
   else match t.splitOn "startup:" with
     | ["Err(", rest] =>
       match (rest.splitOn ")") with
@@ -227,7 +264,8 @@ def parseCallRes? (t : String) : Option CallRes :=
 def opActor (waits calls : List (Nat × Nat)) : Op → Nat
   | .case => 0
   | .spawn a _ _ _ | .pollSpawn a | .dropSpawn a | .poll a | .abort a | .resume a _ | .send a _
-  | .stop a _ | .kill a | .drain a | .wait _ a | .call _ a => a
+  | .stop a _ | .kill a | .drain a | .wait _ a | .call _ a | .spawnInstant a _ _ _ | .link a _ | .unlink a _
+  | .monitor _ a | .unmonitor _ a => a
   | .pollWait w => ((waits.find? (·.1 = w)).map (·.2)).getD 0
   | .pollCall k => ((calls.find? (·.1 = k)).map (·.2)).getD 0
 
@@ -256,8 +294,10 @@ def noteEvents (tgt : Nat) (op : Op) (note : String) : Option (List (Nat × Ev))
     | .stop a r => pure [(a, .stopRet false (.ofUser r) (x == "Ok"))]
     | .kill a => pure [(a, .killRet false (x == "Ok"))]
     | .drain a => pure [(a, .drainRet (x == "Ok"))]
-    | .spawn a _ _ _ | .pollSpawn a => do pure [(a, .spawnRet (← parseSpawnRet? x))]
+    | .spawn a _ _ _ | .pollSpawn a | .spawnInstant a _ _ _ => do pure [(a, .spawnRet (← parseSpawnRet? x))]
     | _ => none
+  | ["inst", "Ok"] => pure [(tgt, .instant)]
+  | ["sjoin", _] => pure []
   | "emit" :: p :: rest => do
     let p ← p.toNat?
     let e ← parseSupEv? rest
@@ -270,6 +310,13 @@ def noteEvents (tgt : Nat) (op : Op) (note : String) : Option (List (Nat × Ev))
   | ["fx", "join", g] => pure [(tgt, .fxJoin g)]
   | ["fx", "reply", k, v, x] => do pure [(tgt, .fxReply (← k.toNat?) (← v.toNat?) (x == "Ok"))]
   | ["fx", "forget", k, x] => do pure [(tgt, .fxForget (← k.toNat?) (x == "Ok"))]
+  -- a child spawned from inside a callback: the callback's own event, and the child's `instant` (+ flavour)
+  | ["fx", "spawnchild", c] => do
+    let c ← c.toNat?
+    pure [(tgt, .fxSpawn c false), (c, .instant)]
+  | ["fx", "spawnchild", c, "local"] => do
+    let c ← c.toNat?
+    pure [(tgt, .fxSpawn c true), (c, .isLocal), (c, .instant)]
   | ["call", k, r] => do
     let k ← k.toNat?
     let r ← parseCallRes? r
@@ -278,7 +325,7 @@ def noteEvents (tgt : Nat) (op : Op) (note : String) : Option (List (Nat × Ev))
     | .call _ _ => pure [(tgt, .callSent k (r != .sendErr)), (tgt, .callRet k r)]
     | _ => pure [(tgt, .callRet k r)]
   | ["wait", w, r] => do pure [(tgt, .waitRet (← w.toNat?) (r == "Ready"))]
-  | ["notask"] | ["nospawn"] | ["noopen"] | ["busy"] | ["respawn"] | ["nocell"] | ["nowait"] | ["nocall"]
+  | ["notask"] | ["nospawn"] | ["noopen"] | ["busy"] | ["respawn"] | ["nocell"] | ["nowait"] | ["nocall"] | ["nomon"]
   | ["bad-op"] => pure []
   | _ => none
 
@@ -291,6 +338,7 @@ structure ObsActor where
   status : Status
   sup : Option Nat
   kids : List Nat
+  kidsClosed : Bool := false
 
 /-- Status field `a:St/sup/kids …` of the observation. -/
 def parseStatuses (field : String) : List ObsActor :=
@@ -301,7 +349,7 @@ def parseStatuses (field : String) : List ObsActor :=
       | [st, sup, kids] => do
         let a ← a.toNat?
         let st ← statusOf? st
-        pure { id := a, status := st, sup := sup.toNat?, kids := (natList? kids).getD [] }
+        pure { id := a, status := st, sup := sup.toNat?, kids := (natList? kids).getD [], kidsClosed := kids == "x" }
       | _ => none
     | _ => none
 
@@ -340,6 +388,11 @@ structure St where
   calls : List (Nat × Nat) := []
   /-- previous observation (for the name-clash frame clause) -/
   prev : String := ""
+  /-- actors a `terminate()` reached in this case (their child set is closed: a link to them is refused) -/
+  treeKilled : List Nat := []
+  /-- feature `monitors`: who monitors whom, from the harness's own `monitor` / `unmonitor` ops (and the
+  `md=` field: monitors the implementation dropped after a failed send): monitored actor → monitors, ascending -/
+  monReg : List (Nat × List Nat) := []
 
 def feed {σ : Type} (next : σ → Ev → Except String σ) (m : Except String σ) (e : Ev) :
     Except String σ × Option String :=
@@ -364,6 +417,26 @@ def feedEv (which : Prop3) (mons : Array Mon) (a : Nat) (e : Ev) : Array Mon × 
 
 def hasSub (s sub : String) : Bool := (s.splitOn sub).length > 1
 
+/-- `target` is `x` or an ancestor of `x` in the observed supervision tree. -/
+def obsAbove (obs : List ObsActor) : Nat → Nat → Nat → Bool
+  | 0, _, _ => false
+  | fuel + 1, x, target =>
+    if x == target then true
+    else match (obs.find? (·.id == x)).bind (·.sup) with
+      | some q => obsAbove obs fuel q target
+      | none => false
+
+def regOf (reg : List (Nat × List Nat)) (a : Nat) : List Nat := ((reg.find? (·.1 == a)).map (·.2)).getD []
+
+def regSet (reg : List (Nat × List Nat)) (a : Nat) (l : List Nat) : List (Nat × List Nat) :=
+  (reg.filter (·.1 != a)) ++ [(a, l)]
+
+/-- `monemit to <event…>` → (to, event) -/
+def parseMonEmit? (note : String) : Option (Nat × SupEv) :=
+  match words note with
+  | "monemit" :: to :: rest => do pure (← to.toNat?, ← parseSupEv? rest)
+  | _ => none
+
 def addNew (l : List String) (x : String) : List String := if l.contains x then l else l ++ [x]
 
 def afterBar (s : String) : String :=
@@ -379,14 +452,24 @@ def step (which : Prop3) (st : St) (opLine impl : String) : St × StepOut :=
     -- names / groups are known to the harness from the op line
     let names := match op with
       | .spawn _ _ (some n) _ => addNew st.names n
+      | .spawnInstant _ _ (some n) _ => addNew st.names n
       | _ => st.names
     let groups := match op with
       | .resume _ sg => sg.fx.foldl (fun acc f => match f with | .joinGroup g => addNew acc g | _ => acc) st.groups
       | _ => st.groups
     let waits := match op with | .wait w a => st.waits ++ [(w, a)] | _ => st.waits
     let calls := match op with | .call k a => st.calls ++ [(k, a)] | _ => st.calls
-    let (w', own, _others) := st.w.step op
-    let model := renderLine w' names groups own
+    let (w', own, others) := st.w.step op
+    -- Known finding F15: an actor that exits while it is on a supervision cycle does not send its terminal
+    -- event to its supervisor (its own `terminate()` walks back to it and clears the link first). The
+    -- model's `cleanup` sends it; in exactly that configuration the rendering follows the code, so that the
+    -- witness can be replayed on every run without a DIFF; the ORACLE below still reports the finding.
+    let tgt0 := opActor st.waits st.calls op
+    let onCyc := op != .case && st.w.onCycle tgt0
+    let ownR := if onCyc then own.filter (fun (_, o) => match o with
+        | .ev (.emit _ e) => !e.isTerminal
+        | _ => true) else own
+    let model := renderLine w' names groups ownR others
     let hist := if op = .case then 0 else mixHash st.hist (hash opLine)
     -- implementation-derived events
     let tgt := opActor waits calls op
@@ -397,13 +480,58 @@ def step (which : Prop3) (st : St) (opLine impl : String) : St × StepOut :=
     let pre : List (Nat × Ev) := match op with
       | .spawn a _ _ true =>   -- the op line says the actor is thread-local (and it was created)
         if notes.any (fun n => hasSub n "enter") then [(a, .isLocal)] else []
+      | .spawnInstant a _ _ true => if notes.contains "inst Ok" then [(a, .isLocal)] else []
       | .abort a => if notes.contains "notask" then [] else [(a, .aborted)]
       | .dropSpawn a => if notes.contains "nospawn" then [] else [(a, .dropped)]
       | _ => []
-    let (evsR, bad) := notes.foldl (fun (acc : List (Nat × Ev) × Bool) n =>
-      match noteEvents tgt op n with
-      | some l => (acc.1 ++ l, acc.2)
-      | none => (acc.1, true)) (pre, false)
+    -- feature `monitors`: all copies of one event sent to monitors in this op are ONE `monFan` event of
+    -- the actor the event is about (registered set from the harness's ops, observed targets sorted, with
+    -- repetitions), placed where the first copy was sent
+    let mdPairs : List (Nat × Nat) := (fields.drop 4).foldl (fun acc f =>
+      match f.splitOn "=" with
+      | ["md", v] => acc ++ (v.splitOn ",").filterMap fun x =>
+          match x.splitOn ":" with
+          | [a, m] => do pure (← a.toNat?, ← m.toNat?)
+          | _ => none
+      | _ => acc) []
+    let monAll : List (Nat × SupEv) := notes.filterMap parseMonEmit?
+    -- (the registered set is kept current inside the op: a monitor whose copy could not be delivered — field
+    -- `md=` — is dropped right after that fan-out)
+    let (evsR, bad, _, regNow) := notes.foldl
+      (fun (acc : List (Nat × Ev) × Bool × List SupEv × List (Nat × List Nat)) n =>
+      let (evs0, bad0, seen, reg) := acc
+      if n.startsWith "monemit " then
+        match parseMonEmit? n with
+        | some (to, e) =>
+          -- every copy arrives at that monitor's supervision port (C03 counts arrivals)
+          if seen.contains e then (evs0 ++ [(to, Ev.supArrive e)], bad0, seen, reg)
+          else
+            let tg := sortNats ((monAll.filter (·.2 == e)).map (·.1))
+            let regA := regOf reg e.who
+            let reg' := regSet reg e.who (regA.filter fun m => !(tg.contains m && mdPairs.contains (e.who, m)))
+            (evs0 ++ [(e.who, Ev.monFan regA tg e), (to, Ev.supArrive e)], bad0, seen ++ [e], reg')
+        | none => (evs0, true, seen, reg)
+      else
+        match noteEvents tgt op n with
+        | some l => (evs0 ++ l, bad0, seen, reg)
+        | none => (evs0, true, seen, reg)) (pre, false, [], st.monReg)
+    -- a monitored actor whose task ended must have told its monitors: if no terminal copy was observed,
+    -- the missing fan-out is put in front of the `join` (judged `c04.monitor-set`)
+    let evsR : List (Nat × Ev) := evsR.foldl (fun acc (a, e) =>
+      match e with
+      | .join _ =>
+        let reg := regOf regNow a
+        let seen := evsR.any fun (b, x) => b == a && (match x with | .monFan _ _ f => f.isTerminal | _ => false)
+        if reg.isEmpty || seen then acc ++ [(a, e)]
+        else acc ++ [(a, Ev.monFan reg [] (.terminated a false .none)), (a, e)]
+      | _ => acc ++ [(a, e)]) []
+    -- actors killed by a `terminate()` inside this op (5th field `tk=a,b`)
+    let tkA : List Nat := match fields with
+      | _ :: _ :: _ :: _ :: rest => rest.foldl (fun acc f => match f.splitOn "=" with
+        | ["tk", v] => acc ++ (natList? v).getD []
+        | _ => acc) []
+      | _ => []
+    let evsR := evsR ++ tkA.map fun a => (a, Ev.treeKill)
     -- the end of a poll of a live loop task
     let evsR : List (Nat × Ev) := match op with
       | .poll a => if notes.contains "notask" then evsR else evsR ++ [(a, Ev.polled)]
@@ -428,17 +556,33 @@ def step (which : Prop3) (st : St) (opLine impl : String) : St × StepOut :=
           (m, acc.2 ++ f)
       let sn : Snap := {
         status := o.status, sup := o.sup,
-        inKids := obs.any (fun p => p.kids.contains o.id),
+        -- in the child set of its observed supervisor / of somebody who is not its supervisor
+        inKids := obs.any (fun p => some p.id == o.sup && p.kids.contains o.id),
+        foreign := obs.any (fun p => some p.id != o.sup && p.kids.contains o.id),
         nameHeld := tabs.any (fun t => names.contains t.1 && t.2 == [o.id]),
         ngroups := (tabs.filter (fun t => groups.contains t.1 && t.2.contains o.id)).length }
       let (m, f) := feedEv which mons o.id (.snap sn)
       (m, fails ++ f)) (mons, fails)
+    -- F15 gets its own clause name: a missing terminal event of an actor that was on a supervision cycle
+    -- (observed link graph before the op) when its task ended
+    let prevObs0 := match st.prev.splitOn " | " with
+      | _ :: f :: _ => parseStatuses f
+      | _ => []
+    let cycActors : List Nat := prevObs0.filterMap fun o =>
+      match o.sup with
+      | some p => if obsAbove prevObs0 (prevObs0.length + 1) p o.id then some o.id else none
+      | none => none
+    let endedHere : List Nat := evsR.filterMap fun (a, e) => match e with | .join _ => some a | _ => none
+    let fails := fails.map fun c =>
+      if c == "c04.missing-terminal" && endedHere.any (fun a => cycActors.contains a) then "c04.missing-terminal-in-cycle" else c
     let pfx := match which with | .c01 => "c01" | .c03 => "c03" | .c04 => "c04" | .residue => "residue" | .c02 => "c02"
     let fails := if bad then fails ++ [pfx ++ ".unparsable"] else fails
+    -- the model must have routed every effect of this step (never drop one silently)
+    let fails := if st.w.stepDone op then fails else fails ++ [pfx ++ ".model-fuel-exhausted"]
     -- residue oracle, driver-level clauses about the registry: a name that the implementation showed as free
     -- can be taken; a name clash leaves every observable field as it was
     let fails := match which, op with
-      | .residue, .spawn _ _ (some n) _ =>
+      | .residue, .spawn _ _ (some n) _ | .residue, .spawnInstant _ _ (some n) _ =>
         let prevTabs := match st.prev.splitOn " | " with
           | _ :: _ :: _ :: f :: _ => parseTables f
           | _ => []
@@ -448,7 +592,36 @@ def step (which : Prop3) (st : St) (opLine impl : String) : St × StepOut :=
               ++ (if !clash && !wasFree then ["residue.clash-not-detected"] else [])
               ++ (if clash && !(afterBar impl == afterBar st.prev || st.names.contains n == false) then ["residue.clash-changed-state"] else [])
       | _, _ => fails
+    -- C04, driver-level clauses about the public `link` / `unlink`: a link that must succeed (both sides
+    -- below `Draining` before the op, the new supervisor's child set not closed by a `terminate()`) makes
+    -- the target the supervisor; an `unlink` of the current supervisor clears it
+    let prevObs := match st.prev.splitOn " | " with
+      | _ :: f :: _ => parseStatuses f
+      | _ => []
+    let fails := match which, op with
+      | .c04, .link a p =>
+        match prevObs.find? (·.id == a), prevObs.find? (·.id == p), obs.find? (·.id == a) with
+        | some oa, some op', some na =>
+          if oa.status.rank < Status.draining.rank && op'.status.rank < Status.draining.rank
+              && !op'.kidsClosed && !obsAbove prevObs (prevObs.length + 1) p a && na.sup != some p
+          then fails ++ ["c04.link-ignored"] else fails
+        | _, _, _ => fails
+      | .c04, .unlink a p =>
+        match prevObs.find? (·.id == a), obs.find? (·.id == a) with
+        | some oa, some na => if oa.sup == some p && na.sup == some p then fails ++ ["c04.unlink-ignored"] else fails
+        | _, _ => fails
+      | _, _ => fails
     -- non-trivial: the op reached the property's interesting branch
+    -- bookkeeping of the monitor sets
+    let monReg := match op with
+      | .monitor m a =>
+        if notes.contains "nocell" || notes.contains "nomon" then st.monReg
+        else regSet st.monReg a (sortNats ((regOf st.monReg a).filter (· != m) ++ [m]))
+      | .unmonitor m a =>
+        if notes.contains "nocell" || notes.contains "nomon" then st.monReg
+        else regSet st.monReg a ((regOf st.monReg a).filter (· != m))
+      | _ => st.monReg
+    let monReg := mdPairs.foldl (fun r (a, m) => regSet r a ((regOf r a).filter (· != m))) monReg
     let tgtA : Option Actor := if op = .case then none else some (st.w.get tgt)
     let filled : Nat := match tgtA with
       | some a => (if a.sigVal then 1 else 0) + (if a.stopVal.isSome then 1 else 0)
@@ -465,13 +638,13 @@ def step (which : Prop3) (st : St) (opLine impl : String) : St × StepOut :=
       | .c03 => (isPoll && (filled ≥ 2 || (filled ≥ 1 && openCb)))
                 || ((match op with | .kill _ | .stop _ _ => true | _ => false) && hasSub impl "ret Ok" && (openCb || filled ≥ 1))
                 || hasSub impl "fx killself Ok" || hasSub impl "fx stopself"
-      | .c04 => hasSub impl "emit" || hasSub impl "ret Err(" || hasSub impl "join" || hasSub impl "cancelled"
+      | .c04 => hasSub impl "monemit" || hasSub impl "emit" || hasSub impl "ret Err(" || hasSub impl "join" || hasSub impl "cancelled"
       | .c02 => hasSub impl " handle " || ((match op with | .send _ _ | .call _ _ => true | _ => false) && (hasSub impl "ret Ok" || hasSub impl "Pending"))
                 || hasSub impl "fx sendself" || (isPoll && (match tgtA with | some a => !a.msgQ.isEmpty | none => false))
-      | .residue => ((match op with | .spawn _ _ _ _ | .pollSpawn _ => true | _ => false) && hasSub impl "ret Err(")
+      | .residue => ((match op with | .spawn _ _ _ _ | .pollSpawn _ | .spawnInstant _ _ _ _ => true | _ => false) && hasSub impl "ret Err(")
                 || ((match op with | .dropSpawn _ => true | _ => false) && !hasSub impl "nospawn")
                 || failedSpawn
-    ({ w := w', mons, hist, names, groups, waits, calls, prev := impl },
+    ({ w := w', mons, hist, names, groups, waits, calls, prev := impl, treeKilled := st.treeKilled ++ tkA, monReg },
      { model, oracle := fails, nontrivial, key := some (toString hist) })
 
 def run (which : Prop3) (ops impl : Array String) : IO Tally :=
